@@ -583,9 +583,11 @@ def r3_interface(run, w, py, ts, cmp_):
 
 def r4_generator(run, w):
   R4 = run.rule("C38-R4", "gen_js_schema.main prints the slots that are compared", floor=4)
+  H.require(w, "gen_js_schema.get_ts_type")
   fn = H.xfn(w, "gen_js_schema.main", keep=("get_ts_type",))
   fi = fn.fi
   v = H.View(fn)
+  run = H.Guarded(run, v, keep=("get_ts_type",))
   loops = [s for s in walk_no_nested(fi.node) if isinstance(s, ast.For)]
   outer = [l for l in loops if v.t(l.iter) == "schema.schema_create_actions()" and
            isinstance(l.target, ast.Name)]
